@@ -19,8 +19,18 @@ static void fill (unsigned char *buf, size_t len) {
     const char *h = getenv ("C20_IKM"); size_t n = h ? strlen (h) / 2 : 0, i;
     for (i = 0; i < len; i++) buf[i] = n ? (unsigned char) (hv (h[2 * (i % n)]) * 16 + hv (h[2 * (i % n) + 1])) : 0;
 }
-ssize_t __wrap_getrandom (void *buf, size_t len, unsigned flags) { note ("getrandom", len, flags); fill (buf, len); return len; }
-int __wrap_getentropy (void *buf, size_t len) { note ("getentropy", len, 0); fill (buf, len); return 0; }
+#include <errno.h>
+/* C20_GETRANDOM_FAIL=1: the kernel interfaces are unavailable (ENOSYS, as on an old kernel): the program has to fall back to
+   its other kernel source (/dev/urandom), which stays the real one */
+static int unavailable (void) { const char *f = getenv ("C20_GETRANDOM_FAIL"); return f && *f == '1'; }
+ssize_t __wrap_getrandom (void *buf, size_t len, unsigned flags) {
+    note ("getrandom", len, flags);
+    if (unavailable ()) { errno = ENOSYS; return -1; }
+    fill (buf, len); return len; }
+int __wrap_getentropy (void *buf, size_t len) {
+    note ("getentropy", len, 0);
+    if (unavailable ()) { errno = ENOSYS; return -1; }
+    fill (buf, len); return 0; }
 int __wrap_entropy_read_uint (unsigned *up) {
     const char *s = getenv ("C20_SALT"); *up = s ? (unsigned) strtoul (s, NULL, 16) : 0;
     note ("entropy_read_uint", *up, 0); return 0;
